@@ -43,7 +43,16 @@ def run_normalise(rel):
 
 def o_normalise(inp):
     rel = [tuple(m) for m in inp["rel"]]
-    out = run_normalise(rel)
+    if inp.get("prelude") is not None:
+        # the same Sequence object has a past (e.g. it was normalised before and edited since): judged against its content now
+        s, rel = P.seq_after_prelude(rel, inp.get("state", "rel"), inp["prelude"])
+        try:
+            s.normalise()
+        except Exception as e:
+            return [("raises", f"{type(e).__name__}: {e}")]
+        out = P.content_of(s)
+    else:
+        out = run_normalise(rel)
     fails = []
     tin, din = rel_timed(rel)
     tout, dout = rel_timed(out)
@@ -65,7 +74,7 @@ def o_normalise(inp):
     if balanced(tin):
         if sounding(tin) != sounding(tout):
             fails.append(("sound", f"sounding set changed: {sounding(tin)} -> {sounding(tout)}"))
-        twice = run_normalise(out)
+        twice = run_normalise(out)     # (a fresh object: idempotence of the function, not of a flagged object)
         # observable content: the timed events and the duration (the channel written on a
         # consolidated wait message is not musical content)
         if rel_timed(twice) != rel_timed(out):
@@ -90,6 +99,21 @@ def generate(ctx):
         for kind, _, _ in v:
             ctx.count("ill:" + kind)
         ctx.check("normalise", {"rel": rel})
+        if i % 3 == 0:
+            # an object with a past: normalised already, then changed through other public operations
+            pre = [("normalise",)] + [rng.choice([("setChannel", rng.randrange(2)), ("editRel", 2, rng.randrange(2)), ("editRel", 0, rng.choice([1, 2])),
+                                                  ("pad", rng.choice([0, 50])), ("transpose", rng.choice([1, 12])), ("editAbs", 2, rng.randrange(2)),
+                                                  ("addRel", G.pm(ON, rng.randrange(2), None, note=rng.choice([60, 61]), vel=64), rng.choice([None, 0]))])
+                                      for _ in range(rng.randint(1, 2))]
+            ctx.count("object-with-a-past")
+            ctx.check("normalise", {"rel": rel, "prelude": pre, "state": rng.choice(P.SEQ_STATES)})
+            # the same with material in which a later operation creates work for normalise: one or two pitches on two channels
+            # (merging the channels makes notes overlap), repeated signatures
+            rel2, _ = G.gen_wf_rel(rng, n_notes=rng.randint(2, 5), channels=(0, 1), pitches=[60, 61][:rng.randint(1, 2)], max_tick=60, max_dur=30)
+            pre2 = [("normalise",), rng.choice([("setChannel", rng.randrange(2)), ("setChannel", 3), ("editRel", 2, 0), ("editAbs", 2, 1),
+                                                ("addRel", G.pm(TIMESIG, 0, None, num=4, den=4), None), ("concat", [rel2[:4]])])]
+            ctx.count("object-with-a-past:two-channel-material")
+            ctx.check("normalise", {"rel": rel2, "prelude": pre2, "state": rng.choice(P.SEQ_STATES)})
         ctx.corr("normalise", P.op_normalise(rel))
         ctx.sample({"rel": rel})
     # exhaustive small scope: every list of <= 3 (quick) / <= 4 (thorough) messages over a 10-symbol alphabet
